@@ -359,6 +359,9 @@ func runC20(c *Ctx) {
 	}
 	r := c.R
 	cfgFrontendAll(c)
+	for _, db := range []int{0, 1, 7, 15} {
+		cfgRedisConn(c, db)
+	}
 	// registries
 	for _, n := range []string{"client approval", "torrent approval", "interval variation", "jwt"} {
 		cfgNew(c, "hook", n, true)
@@ -528,4 +531,59 @@ func cfgFrontendAll(c *Ctx) {
 			}
 		}
 	}
+}
+
+// cfg.redis_conn: the store must actually use what parseRedisURL extracted: the database number and the password.
+// A Redis that requires a password and a store pointed at database `db`: a seeder announced through the store is found
+// by looking into the server directly — in that database and in no other; with a wrong or missing password every
+// store operation fails (and nothing is stored).
+func cfgRedisConn(c *Ctx, db int) {
+	op := fmt.Sprintf("cfg.redis_conn db=%d", db)
+	c.Begin(op)
+	obs := func() (o string) {
+		defer func() {
+			if p := recover(); p != nil {
+				o = "PANIC " + strings.Fields(fmt.Sprint(p))[0]
+			}
+		}()
+		mr, err := miniredis.Run()
+		if err != nil {
+			return "miniredis-failed"
+		}
+		mr.RequireAuth("s3cret")
+		timecache.VerifSetClock(time.Now().UnixNano())
+		p := bittorrent.Peer{ID: bittorrent.PeerIDFromString("-VF0001-000000000001"), Port: 6881,
+			IP: bittorrent.IP{IP: []byte{10, 0, 0, 1}, AddressFamily: bittorrent.IPv4}}
+		ih := bittorrent.InfoHashFromString("01234567890123456789")
+		try := func(broker string) string {
+			ps, err := redis.New(redis.Config{RedisBroker: broker, PeerLifetime: time.Hour, GarbageCollectionInterval: time.Hour, PrometheusReportingInterval: time.Hour,
+				RedisReadTimeout: 2 * time.Second, RedisWriteTimeout: 2 * time.Second, RedisConnectTimeout: 2 * time.Second})
+			if err != nil {
+				return "new-err"
+			}
+			defer func() { <-ps.Stop() }()
+			if err := ps.PutSeeder(ih, p); err != nil {
+				return "err"
+			}
+			return "ok"
+		}
+		where := func() string {
+			var l []string
+			for d := 0; d < 16; d++ {
+				if len(mr.DB(d).Keys()) > 0 {
+					l = append(l, strconv.Itoa(d))
+				}
+			}
+			if len(l) == 0 {
+				return "-"
+			}
+			return strings.Join(l, ",")
+		}
+		nopw := try(fmt.Sprintf("redis://@%s/%d", mr.Addr(), db))
+		wrong := try(fmt.Sprintf("redis://wrong@%s/%d", mr.Addr(), db)) // the store's URL form is redis://[password@]host[/db]
+		storedWithout := where()
+		right := try(fmt.Sprintf("redis://s3cret@%s/%d", mr.Addr(), db))
+		return fmt.Sprintf("no_password=%s wrong_password=%s stored_without_auth=%s right_password=%s stored_in_db=%s", nopw, wrong, storedWithout, right, where())
+	}()
+	c.Emit(op, obs)
 }
